@@ -135,8 +135,11 @@ def make_b(height=5):
             return s_
 
         SH.bound_consistency_algorithm = bc_stub
+        tables = [[[1, 2], [4, 7]], [[4, 3], [2, 1]], [[2, 1], [7, 4]]]
+        table = tables[E.choose(len(tables), "watchers")]
+        trig = core.zeros(NP, b8)
         try:
-            shaved = SH.shave_bound(bound, 0, core.zeros(13, i64), None, None, None, None, None, None, None, None, core.array([[7, 7], [7, 7]], dtype=u8), stack, ne, du, st, core.zeros(NP, b8), None, None)
+            shaved = SH.shave_bound(bound, 0, core.zeros(13, i64), None, None, None, None, None, None, None, None, core.array(table, dtype=u8), stack, ne, du, st, trig, None, None)
         except Obligation as o:
             E.acc.count("obligation:" + o.kind)
             return
@@ -146,7 +149,7 @@ def make_b(height=5):
 
         def viol(kind):
             m = E.model() if E.check() else None
-            v = dict(prop="C10", kind=kind, site="shave_bound", cls=None, harness="shave", top=top, bound=bound, bc_status=chosen.get("status"))
+            v = dict(prop="C10", kind=kind, site="shave_bound", cls=None, harness="shave", top=top, bound=bound, bc_status=chosen.get("status"), watchers=table, height=height, modes=["interpreted"])
             if m is not None:
                 v.update(a=E.ev(m, a), b=E.ev(m, b))
             E.acc.violation(v)
@@ -172,5 +175,16 @@ def make_b(height=5):
             bad += [as_z3bool(x) != as_z3bool(y) for x, y in zip(ne[l].flat_values(), ne_before[l].flat_values())]
         if E.query(OR(bad)):
             viol("level-below-not-as-specified" if shaved else "undo-does-not-restore-the-level")
+        if shaved:
+            # the bound that was shaved moved at this level: every enabled watcher of that event must be queued
+            lo_, hi_ = cur[0]
+            need = [(1 if bound == 0 else 2, z3.BoolVal(True)), (4, lo_ == hi_)]
+            miss = []
+            for p in range(NP):
+                for bit, cond in need:
+                    if table[0][p] & bit:
+                        miss.append(z3.And(cond, as_z3bool(ne_before[top, p]), z3.Not(as_z3bool(trig[p]))))
+            if miss and E.query(OR(miss)):
+                viol("shaved-bound-not-announced-to-its-watchers")
 
     return body
